@@ -72,6 +72,8 @@ def gen_prog(rng, client):
         prog = ['msg'] * rng.choice([1, 2]) + ['wait'] + rng.choice([[], ['msg'], ['all']])
     else:
         prog = ['raw:%d' % rng.choice([0, 1, 3, 5, 7, 200])] + rng.choice([[], ['wait'], ['msg'], ['wait', 'all']])
+    if rng.random() < 0.12:        # a handler / client task that swallows its cancellation once and reads on
+        prog = [('msg!' if op == 'msg' else op) for op in prog] + rng.choice([[], ['msg'], ['wait', 'msg']])
     if client:
         tail = rng.random()
         if tail < 0.25:
@@ -79,6 +81,16 @@ def gen_prog(rng, client):
         elif tail < 0.4:
             prog = prog + ['cancel']
     return prog
+
+
+def gen_bg(rng, client):
+    """a reader that outlives the call: a task spawned by the handler / inside the `async with` block (gated by
+    the harness), or -- client -- reads issued after the block has been left"""
+    if rng.random() >= 0.3:
+        return None
+    ops = [rng.choice(['raw:5', 'raw:5', 'raw:1', 'raw:100', 'raw:1000', 'raw:3000', 'msg'])
+           for _ in range(rng.choice([1, 2, 3, 4]))]
+    return {'ops': ops, 'after': bool(client and rng.random() < 0.5)}
 
 
 def gen_data_frame(rng, i, left):
@@ -102,6 +114,11 @@ def gen_case(rng, side=None):
     side = side or ('server' if rng.random() < 0.65 else 'client')
     k = rng.choice([1, 1, 2, 2, 3, 4])
     streams = [{'msgs': gen_msgs(rng), 'prog': gen_prog(rng, side == 'client')} for _ in range(k)]
+    for st in streams:
+        bg = gen_bg(rng, side == 'client')
+        if bg is not None:
+            st['bg'] = bg
+    paused = False
     # sometimes the peer sends less than the framing promises (truncated message)
     left = []
     for s in streams:
@@ -115,6 +132,13 @@ def gen_case(rng, side=None):
     steps = rng.randint(2, 6) * k + 2
     for _ in range(steps):
         r = rng.random()
+        if opened and rng.random() < 0.07:          # pause / resume the transport at any point
+            actions.append({'resume': 1} if paused else {'pause': 1})
+            paused = not paused
+        if opened and rng.random() < 0.04:
+            bgs = [i for i in opened if 'bg' in streams[i]]
+            if bgs:
+                actions.append({'go2': rng.choice(bgs)})
         if todo and (not opened or r < 0.25):
             i = todo.pop(0)
             opened.append(i)
@@ -180,6 +204,9 @@ def gen_case(rng, side=None):
     if lose and rng.random() < 0.5:
         actions.append({'lose': 1})
         lose = False
+    if paused and rng.random() < 0.5:
+        actions.append({'resume': 1})
+        paused = False
     for i in opened:
         actions.append({'go': i})
     for i in opened:
@@ -193,6 +220,11 @@ def gen_case(rng, side=None):
                 actions.append({'frames': [['E' if side == 'server' else 'T', i]]})
     if side == 'server' and rng.random() < 0.3:        # DATA after everything finished
         actions.append({'frames': [['D', rng.choice(opened), rng.choice([0, 3, 50]), rng.choice([None, 2]), False]]})
+    if paused:                                         # the ledger is judged after the final resume
+        actions.append({'resume': 1})
+    for i in opened:                                   # the readers that outlive their calls read now
+        if 'bg' in streams[i]:
+            actions.append({'go2': i})
     if lose:
         actions.append({'lose': 1})
     return {'op': 'hist', 'side': side, 'cw': gen_window(rng), 'sw': gen_window(rng), 'streams': streams,
@@ -256,6 +288,8 @@ class Run:
         self.k = len(case['streams'])
         self.sid = {}               # stream index -> h2 stream id
         self.done = {}              # stream index -> handler/client program left (its `finally` ran)
+        self.started = {}           # stream index -> the program took its first step
+        self.bg = []                # reader tasks that outlive their calls
         self.rst = set()            # stream indexes the peer reset
         self.cancelled = set()
         self.lost = False
@@ -270,6 +304,7 @@ class Run:
         self.wu_seen = {}
         self.window = None
         self.all_finished = False
+        self.not_finished = False
         self.unhandled = 0
         self.checked = {'never-over-credited': 0, 'finished-fully-credited': 0, 'active-backpressure': 0,
                         'active-backpressure-with-unread-data': 0}
@@ -277,10 +312,22 @@ class Run:
     # -- programs
     async def program(self, i, stream, raw):
         prog = self.case['streams'][i]['prog']
+        bg = self.case['streams'][i].get('bg')
+        self.started[i] = True
         try:
             for op in prog:
+                if self.gone(stream):
+                    # reads on a connection that is gone are outside C08 (live connections): Connection.ack still
+                    # acknowledges, but flush() then touches the deleted _transport whenever h2 has bytes pending,
+                    # so the read may die with AttributeError -- that depends on h2's outbound queue, not on the ledger
+                    break
                 if op == 'msg':
                     await stream.recv_message()
+                elif op == 'msg!':
+                    try:
+                        await stream.recv_message()
+                    except asyncio.CancelledError:
+                        pass
                 elif op == 'all':
                     while (await stream.recv_message()) is not None:
                         pass
@@ -296,8 +343,30 @@ class Run:
                     await stream.cancel()
                 elif op == 'raise':
                     raise Boom()
+            if bg is not None and not bg['after']:
+                self.spawn_bg(i, stream, raw, bg, gated=True)
         finally:
             self.done[i] = True
+
+    def gone(self, stream):
+        """the connection is lost or closing (also when grpclib closed it itself, e.g. after a protocol error)"""
+        return self.lost or stream._stream.connection.is_closing()
+
+    def spawn_bg(self, i, stream, raw, bg, gated):
+        async def reader():
+            try:
+                if gated:
+                    await self.gos2[i].wait()
+                for op in bg['ops']:
+                    if self.gone(stream):
+                        break
+                    if op == 'msg':
+                        await stream.recv_message()
+                    else:
+                        await raw.recv_data(int(op[4:]))
+            except Exception:
+                pass
+        self.bg.append(asyncio.get_event_loop().create_task(reader()))
 
     def server_handler(self, i):
         async def h(stream):
@@ -305,6 +374,7 @@ class Run:
         return h
 
     async def client_call(self, i, method):
+        stream = None
         try:
             async with method.open() as stream:
                 await stream.send_request()
@@ -314,6 +384,9 @@ class Run:
             pass
         finally:
             self.done[i] = True
+            bg = self.case['streams'][i].get('bg')
+            if bg is not None and bg['after'] and stream is not None and i in self.sid:
+                self.spawn_bg(i, stream, stream._stream, bg, gated=False)   # reads after the `async with` block
 
     # -- peer actions
     def frames(self, frs):
@@ -351,6 +424,15 @@ class Run:
             self.frames(a['frames'])
         elif 'go' in a:
             self.gos[a['go']].set()
+        elif 'go2' in a:
+            self.gos2[a['go2']].set()
+        elif 'pause' in a or 'resume' in a:
+            if self.transport is not None and not self.lost:
+                want = 'pause' in a
+                if self.transport.paused != want:
+                    (self.transport.pause if want else self.transport.resume)()
+                    if self.led is not None:
+                        self.led.log.append(('pause',) if want else ('resume',))
         elif 'start' in a:
             i = a['start']
             self.tasks[i] = loop.create_task(self.client_call(i, self.method))
@@ -362,6 +444,9 @@ class Run:
         elif 'lose' in a:
             self.lost = True
             self.transport.lose()
+            for t in self.bg:           # grpclib cancels the tasks it manages; the readers it does not know end here
+                if not t.done():
+                    t.cancel()
 
     # -- run
     def run(self):
@@ -371,6 +456,7 @@ class Run:
         self.bytes = [stream_bytes(s['msgs']) for s in case['streams']]
         with vloop.session() as loop:
             self.gos = [asyncio.Event() for _ in range(self.k)]
+            self.gos2 = [asyncio.Event() for _ in range(self.k)]
             if self.side == 'server':
                 svc = Service('v.S', {'P%d' % i: (self.server_handler(i), 'SS') for i in range(self.k)})
                 se = wire.ServerEnd(loop, [svc], config=cfg)
@@ -401,8 +487,26 @@ class Run:
                     if isinstance(ev, WindowUpdated):
                         self.wu_seen[ev.stream_id] = self.wu_seen.get(ev.stream_id, 0) + ev.delta
                 self.snapshot(loop)
+            if self.led is not None:
+                if self.transport.paused and not self.lost:      # the ledger is judged after the final resume
+                    self.act(loop, {'resume': 1})
+                    loop.run_quiet(1.0)
+                    self.snapshot(loop)
+                live = [t for t in self.bg if not t.done()]
+                if live:                                         # readers still blocked on a drained buffer
+                    for t in live:
+                        t.cancel()
+                    loop.run_quiet(1.0)
+                    self.snapshot(loop)
             self.final(loop)
             self.unhandled = len(loop.unhandled)
+            for _ in range(10):          # tidy up (after all observations): programs that swallow cancellations
+                pend = loop.pending_tasks()
+                if not pend:
+                    break
+                for t in pend:
+                    t.cancel()
+                loop.run_quiet(0.0)
         return self
 
     def slim(self):
@@ -410,13 +514,16 @@ class Run:
         objects of this history can be freed (asyncio.all_tasks() walks every task still alive)"""
         log = self.led.log if self.led is not None else None
         self.led = _LogOnly(log) if log is not None else None
-        self.end = self.peer = self.transport = self.method = self.gos = None
+        self.end = self.peer = self.transport = self.method = self.gos = self.gos2 = None
         self.tasks = {}
+        self.bg = []
 
     # -- observations
     def finished(self, i):
         if self.side == 'server':
-            return bool(self.done.get(i)) or i in self.rst
+            # reset before the handler task took its first step: the coroutine never runs, only the task's
+            # done-callback can release (D9); otherwise the program's `finally` tells
+            return bool(self.done.get(i)) or (i in self.rst and not self.started.get(i))
         t = self.tasks.get(i)
         return t is not None and t.done()
 
@@ -435,13 +542,16 @@ class Run:
     def snapshot(self, loop):
         led = self.led
         alive = not self.lost and not led.conn.is_closing()
+        # while writing is paused a server handler that has finished is still waiting to send its trailers, so
+        # its release is legitimately deferred (the credit of what it read is NOT deferred)
+        settled = not (self.side == 'server' and self.transport.paused)
         snap = {'n': len(led.log), 'streams': {}, 'alive': alive}
         for sid in led.sids():
             snap['streams'][sid] = (led.received.get(sid, 0), led.credited.get(sid, 0), led.forfeited(sid),
                                     led.held(sid), 1 if sid in led.processor.streams else 0)
         snap['conn'] = led.totals()
         snap['finished_registered'] = sorted(sid for i, sid in self.sid.items()
-                                             if self.finished(i) and sid in led.processor.streams)
+                                             if settled and self.finished(i) and sid in led.processor.streams)
         self.snaps.append(snap)
         # ---- direct oracle, at every quiescent point
         inv = {v: k for k, v in self.sid.items()}
@@ -449,12 +559,12 @@ class Run:
             r, c = led.received.get(sid, 0), led.credited.get(sid, 0)
             i = inv.get(sid)
             self.checked['never-over-credited'] += 1
-            if alive and i is not None and self.finished(i):
+            if alive and settled and i is not None and self.finished(i):
                 self.checked['finished-fully-credited'] += 1
             if c > r:
                 self.fail.append(('stream %d credited %d > received %d' % (sid, c, r),
                                   {'kind': 'over-credit', 'level': 'stream'}, [r, c]))
-            elif alive and i is not None and self.finished(i) and c != r:
+            elif alive and settled and i is not None and self.finished(i) and c != r:
                 first = not any(e[0] == 'read' and e[1] == sid for e in led.log)
                 self.fail.append(('call on stream %d has finished on a live connection but only %d of %d received '
                                   'bytes were credited' % (sid, c, r),
@@ -496,18 +606,20 @@ class Run:
             self.fail.append(('advertised windows %r differ from the configured (%d, %d)'
                               % (hs, self.case['cw'], self.case['sw']), {'kind': 'advertised-window'}, hs))
         pending = [i for i in range(self.k) if i in self.sid and not self.finished(i)]
-        stuck = [t for t in loop.pending_tasks()]
+        stuck = [t for t in loop.pending_tasks() if t not in self.bg]
         self.all_finished = not pending and not stuck
         alive = not self.lost and not led.conn.is_closing()
         tr, tc = led.totals()
         self.window = None
-        if alive and (pending or stuck):
-            self.fail.append(('calls not finished at the end of the history: %r' % pending,
-                              {'kind': 'not-finished', 'side': self.side}, pending))
+        # a call that cannot finish (a program that swallowed its cancellation and waits for data that will never
+        # come, a request held back by a pause until the script was over) is not a C08 matter: the per-stream
+        # checks above still applied to every call that did finish; only the end-of-history totals are skipped
+        self.not_finished = bool(alive and (pending or stuck))
         if alive and self.all_finished:
             if tr != tc:
                 self.fail.append(('all calls finished, connection alive: credited %d != received %d' % (tc, tr),
-                                  {'kind': 'leak', 'level': 'connection', 'side': self.side}, [tr, tc]))
+                                  {'kind': 'leak' if tc < tr else 'over-credit', 'level': 'connection-end',
+                                   'side': self.side}, [tr, tc]))
             pend = led.pending_conn()
             deficit = self.case['cw'] - self.peer.h2.outbound_flow_control_window
             self.window = [deficit, pend]
@@ -575,7 +687,8 @@ def hist_lines(run):
     evs, _ = model_tokens(led.log)
     lines, cut = [], []
     # number of input events among the first n log entries
-    is_input = [e[0] in ('open', 'data', 'end', 'read', 'wake', 'cancel', 'release', 'close') for e in led.log]
+    is_input = [e[0] in ('open', 'data', 'end', 'read', 'wake', 'cancel', 'release', 'close', 'pause', 'resume')
+                for e in led.log]
     pref = [0]
     for b in is_input:
         pref.append(pref[-1] + (1 if b else 0))
@@ -657,15 +770,34 @@ def classify(res, case, run):
         res.count('data:padded')
     if run.lost:
         res.count('connection:lost')
+    paused, after = False, 0
+    for e in log:
+        if e[0] in ('pause', 'resume'):
+            paused = e[0] == 'pause'
+            res.count('transport:' + e[0])
+        elif e[0] == 'ack' and paused:
+            res.count('ack:while-paused')
+        elif e[0] == 'release' and paused:
+            res.count('release:while-paused')
+    released = set()
+    for e in log:
+        if e[0] == 'release':
+            released.add(e[1])
+        elif e[0] == 'read' and e[1] in released:
+            after += 1
+    if after:
+        res.count('read:after-release', after)
     if run.all_finished and not run.lost:
         res.count('end:all-finished-alive')
+    if run.not_finished:
+        res.count('end:some-call-not-finished')
     for a in case['actions']:
         fr = a.get('frames') or []
         if len(fr) > 1 and fr[0][0] == 'H' and fr[-1][0] == 'R' and case['side'] == 'server':
             res.count('shape:rst-in-same-read-as-headers')
     if run.skipped:
         res.count('peer-action-skipped', run.skipped)
-    kinds = ''.join(e[0][0] if e[0] != 'release' else 'x' for e in log)
+    kinds = ''.join({'release': 'x', 'pause': 'P', 'resume': 'Q', 'read': 'R', 'ret': 't'}.get(e[0], e[0][0]) for e in log)
     res.signatures.add((case['side'], kinds))
 
 
@@ -754,8 +886,12 @@ RULE = ('PRNG histories on the real Server protocol (65%) and the real Channel (
         '1-4 streams, each with 0-3 length-prefixed messages (sizes 0..3000, sometimes truncated) cut into DATA frames '
         'at PRNG points, un-padded / padded (0,1,7,100,255) / empty frames, several frames of several streams in one '
         'read, END_STREAM, RST_STREAM at PRNG points including in the same read as the request HEADERS, DATA after the '
-        'handler finished, connection loss (8%); handler / client programs: read all, read k messages, never read, '
-        'wait-then-read, read-then-wait, raw partial reads, client cancel / exception / task cancellation; connection '
+        'handler finished, connection loss (8%), transport pause_writing / resume_writing at PRNG points (7% per '
+        'step; a final resume before the ledger is judged); handler / client programs: read all, read k messages, '
+        'never read, wait-then-read, read-then-wait, raw partial reads, reads that swallow a cancellation and go on, '
+        'client cancel / exception / task cancellation; 30% of the streams have a reader that OUTLIVES the call '
+        '(task spawned by the handler / inside the `async with` block and released by the harness later, or reads '
+        'issued after the block was left) -- read after release; connection '
         'and stream windows from {65535, 65536, 2^31-1, 2^31-2, 4MiB, ...} (60%) or uniform over [65535, 2^31-1]. '
         'After every action the loop runs to quiescence and the ledger is compared with the model run on the observed '
         'event order. Separate stream: window pairs incl. illegal ones through Configuration and through '
